@@ -63,7 +63,22 @@ func findPayload(outs []broker.Out, conn int, payload string) (bool, uint32) {
 	return false, 0
 }
 
+// runExpiry runs one scenario.  The held-back scenario needs the message M0 that occupies the send quota to
+// be published in the same wall-clock second as the message under observation: M0 carries no interval of its
+// own, so with a server maximum it expires max seconds after ITS publish second; had that been the second
+// before, a housekeeping run exactly at M's expiry time would remove M0 but not M, the acknowledgement of M0
+// would then find nothing and free no quota (expired in-flight messages do not give their quota back: C11),
+// and the delivery of M would never be triggered.  Such a run says nothing about M and is repeated.
 func runExpiry(sc expScenario) (sx.V, bool) {
+	for attempt := 0; ; attempt++ {
+		v, ok, straddled := runExpiryOnce(sc)
+		if !straddled || attempt >= 6 {
+			return v, ok
+		}
+	}
+}
+
+func runExpiryOnce(sc expScenario) (sx.V, bool, bool) {
 	if sc.subver == 0 {
 		sc.subver = 5
 	}
@@ -127,7 +142,16 @@ func runExpiry(sc expScenario) (sx.V, bool) {
 	}
 	ok, created, stored := lookup()
 	if !ok {
-		return nil, false
+		return nil, false, false
+	}
+	if sc.place == 2 {
+		if c := snapClient(b.Srv.VerifSnapshot(), "s"); c != nil {
+			for _, r := range c.Inflight {
+				if string(r.Payload) == "M0" && r.Created != created {
+					return nil, false, true // the two publishes straddle a second boundary
+				}
+			}
+		}
 	}
 	eff := effInterval(sc.smax, sc.interval)
 	if sc.pubver != 5 {
@@ -191,7 +215,7 @@ func runExpiry(sc expScenario) (sx.V, bool) {
 	if !ver5 {
 		sc.interval = 0 // an MQTT 3 publisher cannot send the property
 	}
-	return sx.L{zs(sc.smax), sx.N(uint64(sc.interval)), sx.Bool(ver5), sx.Bool(sc.subver == 5), sx.N(uint64(sc.place)), zs(created), zs(stored), evs}, !b.Hung
+	return sx.L{zs(sc.smax), sx.N(uint64(sc.interval)), sx.Bool(ver5), sx.Bool(sc.subver == 5), sx.N(uint64(sc.place)), zs(created), zs(stored), evs}, !b.Hung, false
 }
 
 func engExpiry(seed int64, tier string, _ []string, out *sx.Out) {
